@@ -68,21 +68,27 @@ def chex(h):
     return '"%s"' % h
 
 
-_RUN = re.compile(r"((?:00){48,}|(?:61){48,}|(?:ff){48,}|(?:7a){48,})")
-
-
 def cbytes(h):
     """hex string -> Coq term of type bytes.  Long runs of one byte become `repeat`, literals are cut
     into pieces (the Coq front end overflows its stack on very long string literals and reads ~10 kB/s)."""
-    parts = []
-    for seg in _RUN.split(h):
-        if not seg:
-            continue
-        if _RUN.fullmatch(seg):
-            parts.append("repeat %d (N.to_nat %d)" % (int(seg[:2], 16), len(seg) // 2))
+    b = bytes.fromhex(h)
+    parts, lit, i, n = [], bytearray(), 0, len(b)
+
+    def flush():
+        for k in range(0, len(lit), 2000):
+            parts.append('unhex "%s"' % bytes(lit[k:k + 2000]).hex())
+        lit.clear()
+    while i < n:
+        j = i
+        while j < n and b[j] == b[i]:
+            j += 1
+        if j - i >= 48:
+            flush()
+            parts.append("repeat %d (N.to_nat %d)" % (b[i], j - i))
         else:
-            for k in range(0, len(seg), 4000):
-                parts.append('unhex "%s"' % seg[k:k + 4000])
+            lit += b[i:j]
+        i = j
+    flush()
     if not parts:
         return "(@nil N)"
     if len(parts) == 1:
@@ -137,6 +143,9 @@ class Kind:
         raise NotImplementedError
     def shape(self, x):               # histogram key
         return ""
+    panic_not_modelled = False
+    def focus(self, x):               # offset around which the malformed stream changes bytes
+        return 0
     def skip_malformed(self, hx):     # malformed inputs on which the Go decoder is not a function of the input
         return False
     def rt_ok(self, x, got):          # round-trip oracle on Go's decoded value
@@ -441,14 +450,118 @@ class SuperblockK(Kind):
         return 48 <= len(b) < 96 and b[:8] == bytes([137, 72, 68, 70, 13, 10, 26, 10]) and b[8] == 0
 
 
-KINDS = [Dataspace(), Layout(), DatatypeK(), DatatypeVlen(), AttributeK(), SuperblockK()]
+def csbe(sb):
+    return "true" if sb and sb.get("be") else "false"
+
+
+class OhdrV2(Kind):
+    name = "ohdr"
+    label = "ohdr_v2"
+    imports = "Model.CodecOhdr"
+    uses_sb = True
+    panic_not_modelled = True     # ReadObjectHeader also parses attribute messages; a panic there is C07 material
+    TYPES = [1, 2, 3, 5, 6, 8, 11, 12, 13, 15, 17, 22, 22, 13, 255, 0, 10]
+
+    def gen_msgs(self, rng, budget, hdr):
+        msgs = []
+        n = rng.choice([0, 1, 1, 2, 3, 4, 6])
+        for _ in range(n):
+            room = budget - hdr - sum(hdr + len(m["data"]) // 2 for m in msgs)
+            if room < 1:
+                break
+            ln = min(room, rng.choice([1, 1, 2, 4, 5, 8, 16, 18, 40, 100, 251]))
+            t = rng.choice(self.TYPES)
+            d = rbytes(rng, ln)
+            if t == 12:
+                d = bytes([3, 0]) + d[2:]      # attribute-looking, parse errors are ignored by the reader
+            msgs.append(dict(type=t, data=d.hex()))
+        return msgs
+
+    def gen(self, rng, i):
+        sb = dict(v=2, o=8, l=8, be=rng.random() < 0.2, addr=rng.choice([0, 0, 1, 8, 48, 100]))
+        flags = rng.choice([0, 0, 0, 8, 64, 128, 200])
+        msgs = self.gen_msgs(rng, 255, 4)
+        if i < 3:
+            msgs = [dict(type=12, data=rbytes(rng, 251).hex())]        # exactly 255 bytes of messages
+        suf = rbytes(rng, rng.choice([1, 2, 8, 16]))
+        return dict(_sb=sb, version=2, flags=flags, refcount=rng.choice([0, 1, 7]), msgs=msgs, suf=suf.hex())
+
+    def invalid(self, rng):
+        sb = dict(v=2, o=8, l=8, be=False, addr=0)
+        return [dict(_sb=sb, version=2, flags=0, refcount=1, msgs=[dict(type=1, data="00" * 252)], suf="00"),
+                dict(_sb=sb, version=2, flags=0, refcount=1, msgs=[dict(type=1, data="00" * 200), dict(type=1, data="00" * 48)], suf="00")]
+
+    def coq_msgs(self, x):
+        return cl("{| hm_type := %d; hm_data := %s |}" % (m["type"], cbytes(m["data"])) for m in x["msgs"])
+    def coq(self, x):
+        return "{| oh_version := %d; oh_flags := %d; oh_refcount := %d; oh_msgs := %s |}" % (
+            x["version"], x["flags"], x["refcount"], self.coq_msgs(x))
+    def enc_expr(self, x):
+        return "(zeros (N.to_nat %d) ++ enc_ohdr_v2 %s ++ %s)%%list" % (x["_sb"]["addr"], self.coq(x), cbytes(x["suf"]))
+    def encok_expr(self, x):
+        return "encok_ohdr_v2 " + self.coq(x)
+    def wf_expr(self, x):
+        return "wf_ohdr_v2 " + self.coq(x)
+    def dec_expr(self, hexs, sb):
+        return "oval val_ohdr' (dec_ohdr %s %s %d)" % (csbe(sb), cbytes(hexs), sb["addr"])
+    def focus(self, x):
+        return x["_sb"]["addr"]
+    def proj(self, x):
+        cur = x["_sb"]["addr"] + 7
+        ms, name, ref = [], "", None
+        for m in x["msgs"]:
+            d = bytes.fromhex(m["data"])
+            ms.append([m["type"], cur, m["data"]])
+            cur += 4 + len(d)
+            if m["type"] == 13 and len(d) > 1:
+                name = d[1:].hex()
+            if m["type"] == 22 and len(d) >= 4 and ref is None:
+                ref = int.from_bytes(d[:4], "big" if x["_sb"]["be"] else "little")
+        return [2, x["flags"], 1 if ref is None else ref, name, ms]
+    def shape(self, x):
+        return "n=%d,flags=%d,addr=%d" % (len(x["msgs"]), x["flags"], x["_sb"]["addr"])
+
+
+class OhdrV1(OhdrV2):
+    label = "ohdr_v1"
+
+    def gen(self, rng, i):
+        sb = dict(v=0, o=8, l=8, be=False, addr=rng.choice([0, 0, 8, 96]))
+        if i % 4 == 0:
+            msgs = [dict(type=17, data=rbytes(rng, 16).hex())]          # what the library itself writes
+        else:
+            msgs = [m for m in self.gen_msgs(rng, 400, 8) if m["type"] != 16]
+        suf = rbytes(rng, rng.choice([0, 1, 8, 16]))
+        return dict(_sb=sb, version=1, flags=0, refcount=rng.choice([0, 1, 7, (1 << 32) - 1]), msgs=msgs, suf=suf.hex())
+
+    def invalid(self, rng):
+        return []
+    def enc_expr(self, x):
+        return "(zeros (N.to_nat %d) ++ enc_ohdr_v1 %s ++ %s)%%list" % (x["_sb"]["addr"], self.coq(x), cbytes(x["suf"]))
+    def encok_expr(self, x):
+        return None
+    def wf_expr(self, x):
+        return None
+    def proj(self, x):
+        cur = x["_sb"]["addr"] + 16
+        ms, name = [], ""
+        for m in x["msgs"]:
+            d = bytes.fromhex(m["data"])
+            ms.append([m["type"], cur, m["data"]])
+            cur += (8 + len(d) + 7) // 8 * 8
+            if m["type"] == 13 and len(d) > 0:
+                name = d.split(b"\0")[0].hex()
+        return [1, 0, x["refcount"], name, ms]
+
+
+KINDS = [Dataspace(), Layout(), DatatypeK(), DatatypeVlen(), AttributeK(), SuperblockK(), OhdrV2(), OhdrV1()]
 
 # kinds whose encoder/decoder pair is known not to round-trip: id of the KNOWN_FINDINGS entry
-KNOWN_ROUNDTRIP = {"datatype_vlen": "C11-vlen-datatype-header"}
+KNOWN_ROUNDTRIP = {"datatype_vlen": "C11-vlen-datatype-header", "ohdr_v1": "C11-ohdr-v1-size-field"}
 
 
 # ------------------------------------------------------------------------------------------------ malformed stream
-def mutations(rng, h, n_trunc, n_flip):
+def mutations(rng, h, n_trunc, n_flip, focus=0):
     b = bytes.fromhex(h)
     out = []
     L = len(b)
@@ -463,7 +576,7 @@ def mutations(rng, h, n_trunc, n_flip):
         if L == 0:
             break
         # header bytes carry the structure: bias towards the first 16 bytes
-        pos = rng.randrange(0, min(L, 16)) if rng.random() < 0.7 else rng.randrange(0, L)
+        pos = min(L - 1, focus + rng.randrange(0, 16)) if rng.random() < 0.7 else rng.randrange(0, L)
         nb = bytearray(b)
         r = rng.random()
         if r < 0.4:
@@ -555,7 +668,7 @@ def run(ctx):
         mal = []
         skipped_mal = 0
         for x, r in srcs:
-            for how, hx in mutations(rng, r["enc"], 3, 5):
+            for how, hx in mutations(rng, r["enc"], 3, 5, K.focus(x)):
                 if K.skip_malformed(hx):
                     skipped_mal += 1
                     continue
@@ -565,6 +678,13 @@ def run(ctx):
         for (x, how, hx), r in zip(mal, mres):
             d = r["raw"]
             mclass[d["c"]] = mclass.get(d["c"], 0) + 1
+            if d["c"] == "ok" and d["v"] == ["636f6e74"]:
+                mclass["outside_model"] = mclass.get("outside_model", 0) + 1
+                continue
+            if d["c"] == "panic" and K.panic_not_modelled:
+                if len(c07) < 40:
+                    c07.append(dict(kind=K.label, raw=hx, sb=x.get("_sb"), panic=d.get("e")))
+                continue
             if d["c"] == "panic" and len(c07) < 40:
                 c07.append(dict(kind=K.name, raw=hx, sb=x.get("_sb"), panic=d.get("e")))
             exprs.append(("mal", "val_eqb (%s) %s" % (K.dec_expr(hx, x.get("_sb")), cval(goval(d))), (dict(raw=hx, sb=x.get("_sb"), how=how), d)))
